@@ -165,12 +165,21 @@ int ezc3d::ParametersNS::GroupNS::Parameter::read(ezc3d::c3d &file, int nbCharIn
         throw std::ios_base::failure ("Parameter type unrecognized");
 
     // number of dimension of parameter (0 for scalar)
-    int nDimensions(file.readInt(1*ezc3d::DATA_TYPE::BYTE));
+    int nDimensions(static_cast<int>(file.readUint(1*ezc3d::DATA_TYPE::BYTE)));
+    if (nDimensions > 7)
+        throw std::ios_base::failure ("Parameter cannot have more than 7 dimensions");
     if (nDimensions == 0) // In the special case of a scalar (a scalar CHAR is a string of one character)
         _dimension.push_back(1);
     else // otherwise it's a matrix
         for (int i=0; i<nDimensions; ++i)
             _dimension.push_back (file.readUint(1*ezc3d::DATA_TYPE::BYTE));    // Read the dimension size of the matrix
+
+    // The record of a parameter is addressed with 16 bits, its data cannot be larger than that
+    size_t dataLength(static_cast<size_t>(abs(lengthInByte)));
+    for (size_t i=0; i<_dimension.size(); ++i)
+        dataLength *= _dimension[i];
+    if (dataLength > 0xFFFF)
+        throw std::ios_base::failure ("Parameter data are larger than a parameter can hold");
 
     // Read the data for the parameters
     if (_data_type == DATA_TYPE::CHAR)
